@@ -53,7 +53,9 @@ def fixture():
         return RTraj(Rs, ps, ts)
 
     est1 = est_of([0, 1, 2, 3, 4, 6, 7], lambda j: 0.001 * (j + 1), 0.3, 20.0)
-    est2 = est_of([0, 1, 2, 3, 5, 6], lambda j: 0.0015 * (j + 1) + 0.0005,
+    # (starts later than the reference: its first pose is paired with the
+    # third reference pose)
+    est2 = est_of([2, 3, 4, 5, 6, 7], lambda j: 0.0015 * (j + 1) + 0.00025,
                   1.9, None)
     return ref, est1, est2
 
@@ -61,8 +63,11 @@ def fixture():
 T_R = geom.rodrigues((1, 0, 0), math.pi / 2) @ geom.rodrigues(
     (0, 0, 1), math.radians(30))
 T_t = np.array([1.0, -2.0, 3.0])
+_Rz90 = np.array([[0.0, -1.0, 0.0], [1.0, 0.0, 0.0], [0.0, 0.0, 1.0]])
 TRANSFORMS = {"se3": geom.sim_matrix(T_R, T_t, 1.0),
-              "sim3": geom.sim_matrix(T_R, T_t, 2.0)}
+              "sim3": geom.sim_matrix(T_R, T_t, 2.0),
+              # integer entries, stored as an int64 .npy file
+              "int": geom.sim_matrix(_Rz90, [4.0, -6.0, 8.0], 2.0)}
 
 
 EPOCH = 1.5e9
@@ -74,6 +79,12 @@ def write_fixture(wd):
         rfiles.write_tum(os.path.join(wd, name + ".txt"), t.stamps, t.ps, t.Rs)
         rfiles.write_euroc(os.path.join(wd, name + ".csv"),
                            [int(round(x * 1e9)) for x in t.stamps], t.ps, t.Rs)
+        # the estimate recorded with a clock that is 1 s behind
+        # (to be used with --t_offset 1.0)
+        if name == "est1":
+            for suffix, ep in (("_s", 0.0), ("_s_e", EPOCH)):
+                rfiles.write_tum(os.path.join(wd, name + suffix + ".txt"),
+                                 [x - 1.0 + ep for x in t.stamps], t.ps, t.Rs)
         # the same data with epoch-sized timestamps
         es = [x + EPOCH for x in t.stamps]
         rfiles.write_tum(os.path.join(wd, name + "_e.txt"), es, t.ps, t.Rs)
@@ -83,7 +94,8 @@ def write_fixture(wd):
     for name, t in (("ref", ref), ("est1", est1), ("est2", est2)):
         rfiles.write_kitti(os.path.join(wd, name + ".kit"), t.ps[:6], t.Rs[:6])
     for mname, T in TRANSFORMS.items():
-        np.save(os.path.join(wd, "T_%s.npy" % mname), T)
+        np.save(os.path.join(wd, "T_%s.npy" % mname),
+                T.astype(np.int64) if mname == "int" else T)
         with open(os.path.join(wd, "T_%s.mat" % mname), "w") as f:
             for row in T:
                 f.write(" ".join(repr(float(v)) for v in row) + "\n")
@@ -123,6 +135,7 @@ for side in ("left", "right"):
                 props = (False, True) if side == "right" else (False, )
                 for prop in props:
                     TRANSF.append((side, inv, prop, mat, form))
+        TRANSF.append((side, inv, False, "int", "npy"))
 
 DIMS = [
     ("nfiles", [1, 2]),
